@@ -292,7 +292,49 @@ func TestVerifC47Burst(t *testing.T) {
 		close(release)
 		wg1.Wait()
 		wg2.Wait()
-		runtime.GOMAXPROCS(old)
 		w.put(c47Burst{Round: r, Cap: cp, Callers: 2 * callers, MaxConcurrent: int(maxRunning.Load()), Admitted: int(admitted.Load()), Phase: "open-timeout-passed"})
+
+		// churn: the breaker is brought back to half-open and kept there (every probe is cancelled by its
+		// caller, which records nothing), while many goroutines take and return tokens thousands of times, so
+		// the boundary len(semCh) == cap-1 is crossed again and again by competing callers.
+		if b.State() == Open {
+			clock.Store(clock.Load() + 1000)
+		}
+		runtime.GOMAXPROCS(procs)
+		var running2, max2, admitted2 atomic.Int64
+		var wg sync.WaitGroup
+		workers := 8 + rng.intn(9)
+		iters := verifEnvInt("VERIF_C47_CHURN", 150)
+		for g := 0; g < workers; g++ {
+			wg.Add(1)
+			go func(g int) {
+				defer wg.Done()
+				for i := 0; i < iters; i++ {
+					ctx, cancel := context.WithCancel(context.Background())
+					_, _ = b.Execute(ctx, func(ctx context.Context) (any, error) {
+						admitted2.Add(1)
+						n := running2.Add(1)
+						for {
+							m := max2.Load()
+							if n <= m || max2.CompareAndSwap(m, n) {
+								break
+							}
+						}
+						if (i+g)%2 == 0 {
+							runtime.Gosched()
+						}
+						running2.Add(-1)
+						cancel()
+						return nil, ctx.Err()
+					})
+					cancel()
+				}
+			}(g)
+		}
+		wg.Wait()
+		runtime.GOMAXPROCS(old)
+		if b.State() == HalfOpen { // (a wrong transition here is the history harness's business)
+			w.put(c47Burst{Round: r, Cap: cp, Callers: workers, MaxConcurrent: int(max2.Load()), Admitted: int(admitted2.Load()), Phase: "half-open-churn"})
+		}
 	}
 }
